@@ -284,7 +284,11 @@ impl VrlValueArithmetic for Value {
         use Value::{Float, Integer};
 
         match self {
-            Integer(lhv) => rhs.try_into_f64().is_ok_and(|rhv| *lhv as f64 == rhv),
+            Integer(lhv) => match rhs {
+                // two integers compare exactly; only mixed integer/float comparisons are lossy
+                Integer(rhv) => lhv == rhv,
+                _ => rhs.try_into_f64().is_ok_and(|rhv| *lhv as f64 == rhv),
+            },
 
             Float(lhv) => rhs.try_into_f64().is_ok_and(|rhv| lhv.into_inner() == rhv),
 
